@@ -341,6 +341,10 @@ def execute(mat, ctx):
             for stem in list(expect)[:3]:
                 # keys that only differ from a real stem by a wildcard metacharacter must not find it
                 absent += [(stem[:-1] + "?", "wildcard-key"), (stem[:2] + "*", "wildcard-key"), ("[" + stem[0] + "]" + stem[1:], "wildcard-key")]
+            for stem in list(expect)[:3]:
+                # other path spellings of a present stem are not keys either (iteration never yields them)
+                absent += [("/" + stem, "path-spelling-of-a-stem"), ("//" + stem, "path-spelling-of-a-stem"), ("./" + stem, "path-spelling-of-a-stem"),
+                           (stem + "/", "path-spelling-of-a-stem"), ("sub/../" + stem, "path-spelling-of-a-stem")]
             absent += [("*", "wildcard-key"), ("?" * 7, "wildcard-key")]
             absent += [("sub", "sub-directory"), ("dir", "sub-directory"), ("dir.gb", "sub-directory"), ("README", "junk-file"), ("notes", "junk-file"),
                        ("inner", "file-in-sub-directory"), ("sub/inner", "path-into-sub-directory"), ("dir.gb/deep", "path-into-sub-directory"),
